@@ -67,7 +67,10 @@ func (r *Registry) PushBlobChunkedResume(ctx context.Context, repoName, id strin
 		b = NewBuffer(func(b *Buffer) error {
 			r.mu.Lock()
 			defer r.mu.Unlock()
-			desc, data, _ := b.GetBlob()
+			desc, data, err := b.GetBlob()
+			if err != nil {
+				return err
+			}
 			repo.blobs[desc.Digest] = &blob{mediaType: desc.MediaType, data: data}
 			return nil
 		}, id)
